@@ -66,6 +66,18 @@ static void rle_case(const uint32_t* v, int64_t n, int width, int do_stream) {
     if (st != CARQUET_OK) { v_count("rle_encode_refused"); carquet_buffer_destroy(&buf); return; }
     uint8_t* enc = v_exact_copy(buf.data, buf.size); size_t enc_n = buf.size;
     uint32_t* out = v_exact((size_t)n * 4);
+    /* --- the streaming encoder fed run by run (put_repeat for whole runs, parts of runs and runs of length 1, put otherwise), as the level writers use it --- */
+    { carquet_buffer_t sb; carquet_buffer_init(&sb); carquet_rle_encoder_t se; carquet_rle_encoder_init(&se, &sb, width); int okst = 1; uint64_t plan = h; char how[200]; size_t hn = 0; how[0] = 0;
+      for (int64_t i = 0; i < n && okst;) { int64_t j = i; while (j < n && v[j] == v[i]) j++; int64_t run = j - i; plan = plan * 6364136223846793005ULL + 1442695040888963407ULL; int mode = (int)((plan >> 33) % 4);
+          if (mode == 0) { okst = carquet_rle_encoder_put_repeat(&se, v[i], run) == CARQUET_OK; if (hn + 12 < sizeof how) hn += (size_t)snprintf(how + hn, sizeof how - hn, "R%lld ", (long long)run); }
+          else if (mode == 1 && run >= 2) { int64_t a = 1 + (int64_t)((plan >> 40) % (uint64_t)(run - 1)); okst = carquet_rle_encoder_put_repeat(&se, v[i], a) == CARQUET_OK && carquet_rle_encoder_put_repeat(&se, v[i], run - a) == CARQUET_OK; if (hn + 20 < sizeof how) hn += (size_t)snprintf(how + hn, sizeof how - hn, "R%lld+R%lld ", (long long)a, (long long)(run - a)); }
+          else { for (int64_t q = 0; q < run && okst; q++) okst = carquet_rle_encoder_put(&se, v[i]) == CARQUET_OK; if (hn + 12 < sizeof how) hn += (size_t)snprintf(how + hn, sizeof how - hn, "P%lld ", (long long)run); }
+          i = j; }
+      if (okst && carquet_rle_encoder_flush(&se) == CARQUET_OK) { uint8_t* e3 = v_exact_copy(sb.data, sb.size); int64_t g3 = carquet_rle_decode_all(e3, sb.size, width, out, n); v_count("rle_streaming_encoder_cases");
+          if (g3 != n || (n && memcmp(out, v, (size_t)n * 4) != 0)) { snprintf(key, sizeof key, "rle:streaming-encoder-roundtrip:%s", rle_shape(v, n)); fmt_seq(s, sizeof s, v, n); v_viol(key, "width=%d n=%lld decoded=%lld calls=%s seq=%s", width, (long long)n, (long long)g3, how, s); }
+          free(e3); }
+      else v_count("rle_encode_refused");
+      carquet_buffer_destroy(&sb); }
     int64_t got = carquet_rle_decode_all(enc, enc_n, width, out, n);
     if (got != n || (n && memcmp(out, v, (size_t)n * 4) != 0)) {
         fmt_seq(s, sizeof s, v, n);
